@@ -907,6 +907,7 @@ impl Kademlia {
                 let key = record.key.clone();
                 let message: Bytes = KademliaMessage::put_value(record);
 
+                let mut unreachable_peers = Vec::new();
                 for peer in &peers {
                     if let Err(error) = self.open_substream_or_dial(
                         peer.peer,
@@ -921,6 +922,7 @@ impl Kademlia {
                             ?error,
                             "failed to put record to peer",
                         );
+                        unreachable_peers.push(peer.peer);
                     }
                 }
 
@@ -930,6 +932,13 @@ impl Kademlia {
                     peers.into_iter().map(|peer| peer.peer).collect(),
                     quorum,
                 );
+
+                // No substream is being opened and no dial is pending for these peers, so nothing
+                // would ever report an outcome for them: settle them now, otherwise the query
+                // never completes.
+                for peer in unreachable_peers {
+                    self.engine.register_send_failure(query, peer);
+                }
 
                 Ok(())
             }
@@ -961,6 +970,7 @@ impl Kademlia {
 
                 let message = KademliaMessage::add_provider(provided_key.clone(), provider);
 
+                let mut unreachable_peers = Vec::new();
                 for peer in &peers {
                     if let Err(error) = self.open_substream_or_dial(
                         peer.peer,
@@ -973,7 +983,8 @@ impl Kademlia {
                             ?provided_key,
                             ?error,
                             "failed to add provider record to peer",
-                        )
+                        );
+                        unreachable_peers.push(peer.peer);
                     }
                 }
 
@@ -983,6 +994,12 @@ impl Kademlia {
                     peers.into_iter().map(|peer| peer.peer).collect(),
                     quorum,
                 );
+
+                // See `PutRecordToFoundNodes`: peers without a substream or a dial in progress
+                // never report an outcome.
+                for peer in unreachable_peers {
+                    self.engine.register_send_failure(query, peer);
+                }
 
                 Ok(())
             }
